@@ -102,7 +102,7 @@ RECURSIVE ObjErrsFor(_, _, _, _)
 \* of the operation (context of the coordinates), c = <<root, parent type, field>>
 ValErrs(T, sel, j, c) ==
   IF IsNN(T) THEN
-     IF j.t = "n" THEN (IF <<c[2], c[3]>> \in ServiceNull THEN {} ELSE {Err(c, "null-in-non-null")})
+     IF j.t = "n" THEN (IF <<c[1], c[2], c[3]>> \in ServiceNull \/ <<"*", c[2], c[3]>> \in ServiceNull THEN {} ELSE {Err(c, "null-in-non-null")})
      ELSE ValErrs(T.of, sel, j, c)
   ELSE IF j.t = "n" THEN {}
   ELSE IF IsList(T) THEN
@@ -308,7 +308,11 @@ R_WrapSelf(op, p, i) == LET L == SelsAt(op.sel, p) IN
                         [op EXCEPT !.sel = PutAt(op.sel, p, [L EXCEPT ![i] = Inline(TypeAt(op, p), <<L[i]>>)])]
 \* only a field wrapped in a fragment on its abstract enclosing type is something the planner may emit; fragments
 \* at the root, on the enclosing object type, or around another fragment are flattened by normalization
-WrapSelfNormOnly(op, p, i) == Len(p) = 0 \/ ~IsAbstract(TypeAt(op, p)) \/ SelsAt(op.sel, p)[i].k # "f"
+RECURSIVE OwnerAt(_, _)
+OwnerAt(sel, p) == IF Len(p) = 1 THEN sel[p[1]] ELSE OwnerAt(sel[Head(p)].sel, Tail(p))
+\* the selection list at p is the body of a fragment (wrapping anything in it yields a fragment inside a fragment)
+InFragment(op, p) == IF Len(p) = 0 THEN FALSE ELSE OwnerAt(op.sel, p).k # "f"
+WrapSelfNormOnly(op, p, i) == Len(p) = 0 \/ ~IsAbstract(TypeAt(op, p)) \/ SelsAt(op.sel, p)[i].k # "f" \/ InFragment(op, p)
 
 \* ... into a named fragment (definition + spread)
 R_ToNamed(op, p, i) == LET L == SelsAt(op.sel, p) IN
